@@ -76,6 +76,7 @@ def gen_cases(tier, seed):
             yield {"kind": "gen", "cfg": list(CONFIGS[tier][ci]), "scheme": scheme}
     yield {"kind": "mixed"}
     yield {"kind": "layout"}
+    yield {"kind": "jump"}
 
 
 def mjd_time(m):
@@ -669,6 +670,51 @@ def layout_case(case, res):
     res.sample({"layouts": list(variants)}, 1)
 
 
+def jump_case(case, res):
+    """Two touching entries whose predictions differ by an upward jump J at the junction: a phase inside the jump is predicted
+    by no entry anywhere on its span (ValueError, or a time that does invert it); phases just outside it are inverted."""
+    zeros = ["0.00000000000000000e+00"] * 3
+    for jump_str in ("0.300000", "0.000001", "0.001000", "0.000100"):
+        J = F(jump_str)
+        e0 = polyco.Entry("J0000+00", "58000.25000000000", "1000.000000", "100.000000000000", "ao", 90, zeros, "1400.000", "12.345000")
+        r1 = F(1000) + 100 * 60 * 90 + J
+        e1 = polyco.Entry("J0000+00", "58000.31250000000", f"{r1.numerator // r1.denominator}.{jump_str.split('.')[1]}",
+                          "100.000000000000", "ao", 90, zeros, "1400.000", "12.345000")
+        p = pb.PhasePredictor.from_polyco(io.StringIO(e0.text() + e1.text()))
+        lo = e0.phase(e0.stop)                       # largest phase of entry 0
+        hi = e1.phase(e1.start)                      # smallest phase of entry 1 (= lo + J)
+        res.transitions += 1
+        res.traces += 1
+        for frac, inside in ((F(1, 2), True), (F(1, 10), True), (F(9, 10), True), (F(-1), False), (F(2), False), (F(-1000), False)):
+            phv = lo + frac * J if inside else (lo + frac * J if frac < 0 else hi + (frac - 1) * J)
+            ph = pb.Phase(float(phv.numerator // phv.denominator), float(phv - phv.numerator // phv.denominator))
+            phx = phase_exact_of(ph)[0]
+            sub = {"jump": jump_str, "where": float(frac), "inside the jump": inside}
+            res.transitions += 1
+            res.state(("jump", jump_str, str(frac)))
+            try:
+                t = p.time_at(ph)
+            except ValueError:
+                if inside:
+                    res.hits["phase inside a junction jump refused"] += 1
+                else:
+                    res.violation("jump|attained phase refused", f"jump {jump_str}: phase {float(phx)!r} is predicted by an entry, "
+                                  f"time_at raised ValueError", case, sub)
+                continue
+            except Exception as ex:
+                res.violation("jump|wrong exception", f"{type(ex).__name__}: {ex}", case, sub)
+                continue
+            back = phase_exact_of(p(t))[0]
+            if abs(back - phx) > inversion_budget(e0.f0):
+                res.violation("jump|time_at does not invert", f"jump of {jump_str} cycle at the junction: time_at(phase "
+                              f"{'inside' if inside else 'outside'} the jump) returned a time whose prediction is off by "
+                              f"{float(abs(back - phx)):.3g} cycle (no entry predicts that phase: ValueError, or a time that inverts it)",
+                              case, sub)
+            elif not inside:
+                res.hits["phase next to a junction jump inverted"] += 1
+    res.sample({"jumps": "0.3, 1e-6, 1e-3, 1e-4 cycle"}, 1)
+
+
 def mixed_case(case, res):
     a = polyco.make_entries(2, "touch", 90, "641.928232294317", "146750669817.214345", 12, "e")
     variants = {
@@ -695,7 +741,7 @@ def mixed_case(case, res):
 
 def check_case(case):
     res = report.Result()
-    {"gen": gen_case, "shipped": shipped_case, "mixed": mixed_case, "long": long_case, "tmid_family": tmid_family_case, "layout": layout_case}[case["kind"]](case, res)
+    {"gen": gen_case, "shipped": shipped_case, "mixed": mixed_case, "long": long_case, "tmid_family": tmid_family_case, "layout": layout_case, "jump": jump_case}[case["kind"]](case, res)
     return res
 
 
@@ -707,7 +753,8 @@ def main(argv=None):
                        "coefficient count not a multiple of three", "D exponents", "shipped file", "mixed entries rejected", "other time scales",
                        "times within 300 ns of a junction, inside the neighbouring span only", "long contiguous file",
                        "time_at: p(time_at(ph)) compared with ph in cycles", "time_at on a dense family late in a long interval",
-                       "empty subset: everything is outside", "one-entry files on a day's grid of TMIDs", "text layouts"],
+                       "empty subset: everything is outside", "one-entry files on a day's grid of TMIDs", "text layouts", "phase inside a junction jump refused",
+                       "phase next to a junction jump inverted"],
         assumptions=["decimal strings of the text are the exact inputs; time is the exact (jd1, jd2) of the Time object; budget "
                      "1e-8 cycle + F0*86400*2^-51", "times inside a < 1 ms gap between spans and exactly on a span end are "
                      "unconstrained (grid uses ends +-1 us)", "time_at is exercised only where the prediction is continuous"],
